@@ -76,6 +76,17 @@ check("C14", "exploration",
       "bounded-exhaustive matrix enumeration on the real code with a metamorphic (swap) oracle",
       "DESIGN.md §3/C14")
 
+check("C19", "exploration",
+      "For every parsed expression of the C02 enumeration and the C03 query forms (n-ary LIST/FUN_CALL/SIMULATE/PROBA nodes "
+      "included) the real clone_deeper/subst/equal/get_size are run against their laws: clone equal, no shared node, mutation "
+      "of either side invisible to the other at every node position, subst = reference substitution for every occurring "
+      "symbol and non-mutating, identity substitution, every single-node perturbation (kind, symbol, constant, operand swap) "
+      "detected by equal, get_size() = stored children at every node; equal as a relation over pools (all pairs/triples).",
+      "Node identity / stored children / perturbations go through harness/wrap_expression.cpp (a wrapper TU including "
+      "expression.cpp). Small scope as in C02.",
+      "bounded-exhaustive enumeration of expressions x node positions x perturbations on the real code (law oracles)",
+      "DESIGN.md §3/C19")
+
 ALL = ["C%02d" % i for i in range(1, 21)]
 for pid in ALL:
     if pid not in CHECKS:
